@@ -752,6 +752,8 @@ def run(ctx):
         t["id"] = i
         t["primary"] = t["toks"] in ("ALL15", "BASE", "MODE0", "BASE0") and t.get("mslice", [0])[0] == 0
     ctx.pmap(MOD, "task", tasks)
+    for hs in (("4", "7") if ctx.quick else ("1", "2", "4", "7", "123", "4242")):  # every 9th task again in interpreters with other hash seeds
+        ctx.pmap(MOD, "task", tasks[::9], hashseed=hs)
     c = ctx.res.counters
     spaces = {}
     stats = sorted(ctx.res.sets.get("stats", ()), key=lambda s: s[1])
